@@ -57,6 +57,8 @@ pub struct Scripted {
     pub script: Script,
     pub st: Arc<Mutex<ScriptState>>,
     pub sink: Arc<Mutex<dyn ScriptSink>>,
+    /// extra handles on parameters already handed out: (index, fraction of the range)
+    pub aliases: Vec<(usize, f64)>,
 }
 
 pub const START_SCORE: f64 = 0.;
@@ -73,6 +75,7 @@ impl Scripted {
             script,
             st: Arc::new(Mutex::new(ScriptState { memo: std::collections::HashMap::new(), ring: std::collections::VecDeque::new(), calls: 0, best: START_SCORE, worst: START_SCORE, anchor: START_SCORE, rng: seed | 1 })),
             sink,
+            aliases: vec![],
         }
     }
     pub fn values(&self) -> Vec<f64> {
@@ -187,7 +190,16 @@ impl State for Scripted {
         score
     }
     fn generate_basis(&self) -> Vec<StandardBasis> {
-        self.vals.iter().zip(self.bounds.iter()).map(|(v, (lo, hi))| StandardBasis::new(v, *lo, *hi)).collect()
+        let mut b: Vec<StandardBasis> = self.vals.iter().zip(self.bounds.iter()).map(|(v, (lo, hi))| StandardBasis::new(v, *lo, *hi)).collect();
+        for (i, frac) in self.aliases.iter() {
+            if let (Some(v), Some((lo, hi))) = (self.vals.get(*i), self.bounds.get(*i)) {
+                // same bounds, or a narrower window inside them (a "fine" handle)
+                let w = (hi - lo) * frac;
+                let mid = 0.5 * (lo + hi);
+                b.push(StandardBasis::new(v, (mid - w / 2.).max(*lo), (mid + w / 2.).min(*hi)));
+            }
+        }
+        b
     }
     fn total_shapes(&self) -> usize {
         1
@@ -206,6 +218,7 @@ impl Clone for Scripted {
             script: self.script.clone(),
             st: self.st.clone(),
             sink: self.sink.clone(),
+            aliases: self.aliases.clone(),
         }
     }
 }
